@@ -891,6 +891,12 @@ dictionaries of the argument objects, as a caller would pass them) -/
 def step (e : Env) (line : String) : Env × String :=
   -- `fn.new`: the class constructor called directly (documented alternative to `PEP.declare_function`): same object
   let line := if line.startsWith "fn.new " then "fn.decl " ++ (line.drop 7).toString else line
+  -- documented aliases of the public API: `f.subgradient(x)` = `f.gradient(x)`, `f(x)` = `f.value(x)`, `-f` = `(-1) * f`
+  let line := if line.startsWith "fn.subgradient " then "fn.gradient " ++ (line.drop 15).toString else line
+  let line := if line.startsWith "fn.call " then "fn.value " ++ (line.drop 8).toString else line
+  let line := match (line.trimAscii.toString.splitOn " ").filter (· ≠ "") with
+    | ["fn.neg", n, a] => s!"fn.smul {n} -1 {a}"
+    | _ => line
   let toks := (line.trimAscii.toString.splitOn " ").filter (· ≠ "")
   let pre := e.w
   let (e', out) := stepCore e line
